@@ -129,7 +129,7 @@ def gen_cases(rng, tier):
             if id(inv) not in keep:
               inv['raw'] = 'cont'
               inv['meas'] = ['pass' if m in ('fail', 'unset') else ('ppass' if m in ('pfail', 'praise') else m) for m in inv.get('meas', [])]
-              inv['diags'] = [[[rid, False] for rid, f in d] if d != 'raise' else [] for d in inv.get('diags', [])]
+              inv['diags'] = [[[e[0], False] for e in d] if d != 'raise' else [] for d in inv.get('diags', [])]
         for v in n.values():
           calm(v, keep)
       elif isinstance(n, list):
